@@ -161,6 +161,9 @@ def _dj_post(ctx):
     sig = (mon, sr["t"], D, tuple(classes), len(s["entries"]))
     case = {"call": "dejitter", "tier": s, "ref": sr, "D": D}
     _why = receiver_changed(ctx, s)
+    if _why is None and ctx.exc is None and ctx.result is ctx.self_:
+        # "returns the modified version of the current tier": a tier of its own, also when no timestamp had to move
+        _why = "dejitter returned the tier it was called on: editing the result edits the source"
     if _why:
         REC.violation(PROP, "dejitter.interval" if s["t"] == "I" else "dejitter.point", "dejitter", case, _why, ("receiver-changed", "dejitter"), {"op": "dejitter", "receiver_changed": True})
         return
@@ -210,6 +213,12 @@ def _al_post(ctx):
     res = ctx.result
     if not snap.is_tg(res):
         REC.violation(PROP, "align", "alignBoundariesAcrossTiers", case, "returned %r" % (res,), sig, mech)
+        return
+    if res is not ctx.arg(0, "tg"):
+        # documented: "Returns: the provided textgrid with aligned boundaries" - the caller's textgrid is the one that gets aligned
+        # (callers use the function for its effect and drop what it returns)
+        REC.violation(PROP, "align", "alignBoundariesAcrossTiers", case, "returned another textgrid object than the one provided (the provided one %s)" % (
+            "was left as it was" if snap.snap_equal(snap.tg_snap(ctx.arg(0, "tg")), s) else "was changed as well"), sig, dict(mech, not_the_provided_object=True))
         return
     r = snap.tg_snap(res)
     if r["keys"] != s["keys"]:
